@@ -11,7 +11,8 @@ TRUSTED = BASE_TRUSTED + [
     "the library's task objects — covered by real-thread oracle runs over nine constructs; the tie between model and code is at the level of observable outcomes only "
     "(which exception reaches the caller, what is still running), not step by step",
 ]
-NAMES = ["task_group", "parallel_for", "parallel_reduce", "parallel_for_each", "parallel_invoke", "parallel_pipeline", "flow graph function_node", "task_arena::execute", "parallel_for nested in task_group"]
+NAMES9 = "400 warm rounds of task_group / parallel_for with simultaneous throwers"
+NAMES = ["task_group", "parallel_for", "parallel_reduce", "parallel_for_each", "parallel_invoke", "parallel_pipeline", "flow graph function_node", "task_arena::execute", "parallel_for nested in task_group", NAMES9]
 
 
 def run(ctx):
@@ -46,17 +47,21 @@ def run(ctx):
         sc = r % 9
         n = 4 if sc == 4 else [8, 60, 400][(r // 9) % 3]
         runs.append([[1, 2, 4, 16][r % 4], ctx.seed * 100 + r, n, sc, [0, 1, 2, 5][(r // 3) % 4]])
+    for r in range(ctx.scale(24, 240)):
+        runs.append([[8, 16][r % 2], ctx.seed * 100 + 5000 + r, 16, [0, 1, 3, 8][r % 4], 6])          # six bodies throw at the same moment
+    for r in range(ctx.scale(3, 20)):
+        runs.append([[8, 16, 12][r % 3], ctx.seed * 100 + 7000 + r, 12, 9, [6, 2, 4][r % 3]])
     ctx.rules.append("exc-mt (oracle only): nine constructs, 1-16 threads, 0/1/2/5 throwing bodies among 4-400: exactly one exception reaches the caller iff a body threw, it is one that was thrown, "
-                     "no body is running at that moment and none starts afterwards, functor copies are destroyed exactly once, the group/graph/arena is reusable; an exception escaping on a worker would terminate the process")
+                     "no body is running at that moment and none starts afterwards, functor copies and exception objects are destroyed exactly once (throwers rendezvous so that several catch blocks race), the group/graph/arena is reusable; an exception escaping on a worker would terminate the process")
     bad = 0
     for args in runs:
         rc, lines, err = ctx.run_driver(exe, args, timeout=300)
         ctx.count(("exc-mt", tuple(args)), args[4] > 0, "exc %s" % NAMES[args[3]])
         t = (lines or ["no output"])[-1].split()
-        if rc != 0 or len(t) < 12 or any(x != "0" for x in t[1::2]):
+        if rc != 0 or len(t) < 14 or any(x != "0" for x in t[1::2]):
             bad += 1
             ctx.add(Finding("violation", "exc-mt-%d" % args[3], "%s, %d threads, seed %d, %d bodies of which %d throw: %s rc=%s (CAUGHTDIFF = exceptions delivered minus expected; RUNNINGATRETURN = bodies still "
-                            "running when the call returned/threw; STARTEDAFTER = bodies started later; LEAK = functor copies not destroyed)" % (NAMES[args[3]], args[0], args[1], args[2], args[4], " ".join(t), rc),
+                            "running when the call returned/threw; STARTEDAFTER = bodies started later; LEAK = functor copies not destroyed; EXCLEAK = exception objects not destroyed)" % (NAMES[args[3]], args[0], args[1], args[2], args[4], " ".join(t), rc),
                             {"tie": "exc-mt", "args": args}))
             if bad >= 3:
                 break
